@@ -93,3 +93,26 @@ func verifHarness_f01_fail() {
 	verifCover(refPan != nil, 3)
 	verifCover(refErr != nil, 4)
 }
+
+// Flow02: multi-output task, Invoke sink, two Results, Concurrency(2)
+func verifHarness_f02_ok() {
+	ctx := verifNdCtx(false)
+	a := A(verifNdInt(1))
+	verifRefBegin()
+	b, c, _ := T4(a)
+	wantD := T5(b)
+	e := T6(c)
+	wantF, _ := T7(wantD, e)
+	verifRefEnd()
+	var f F
+	var d D
+	err := Flow02(ctx, a, &f, &d)
+	verifAssert(err == nil, 1)
+	verifAssert(f == wantF && d == wantD, 2)
+	verifAssert(verifCallCount("T4") == 1 && verifCallCount("T5") == 1 && verifCallCount("T6") == 1 && verifCallCount("T7") == 1 && verifCallCount("S1") == 1, 3)
+	verifAssert(C(verifCallArg("S1", 0, 0)) == c, 4)
+	verifAssert(D(verifCallArg("T7", 0, 0)) == wantD && E(verifCallArg("T7", 0, 1)) == e, 4)
+	verifAssert(verifSchedConcurrency() == 2, 5)
+	verifAssert(verifSchedEnqueues() == 5, 6)
+	verifCover(f != 0, 1)
+}
